@@ -163,4 +163,18 @@ def fold(eng, ver, name):
     if F.kind == "all":
         for (k, v) in ver.picked:
             eng.facts.add(z3.Implies(r, F.fn(eng, k, v)))
+    # congruence: dict versions asserted (conditionally) equal have equal folds
+    for (va, vb, cond) in getattr(eng, "store_eqs", ()):
+        other = vb if va is ver else (va if vb is ver else None)
+        if other is not None:
+            eng.facts.add(z3.Implies(cond, r == fold(eng, other, name)))
     return r
+
+
+def assert_same(eng, va, vb, cond):
+    """record that the two versions are equal as dicts whenever cond holds (fold congruence)"""
+    if not hasattr(eng, "store_eqs"):
+        eng.store_eqs = []
+    eng.store_eqs.append((va, vb, cond))
+    for name in set(va.cache) | set(vb.cache):
+        eng.facts.add(z3.Implies(cond, fold(eng, va, name) == fold(eng, vb, name)))
